@@ -7,6 +7,8 @@ import (
 	"fmt"
 	"os"
 	"path/filepath"
+	"runtime/debug"
+	"runtime/pprof"
 	"sort"
 	"strconv"
 	"strings"
@@ -73,6 +75,7 @@ func loadKnown() []knownFinding {
 }
 
 func cmdOne(args []string) int {
+	debug.SetGCPercent(300)
 	if len(args) < 2 {
 		usage()
 	}
@@ -122,6 +125,11 @@ func cmdOne(args []string) int {
 		for _, x := range s.InitSkipped {
 			fmt.Println("  init skipped:", firstLine(x))
 		}
+	}
+	if pf := os.Getenv("GOSYM_PROF"); pf != "" {
+		f, _ := os.Create(pf)
+		pprof.StartCPUProfile(f)
+		defer pprof.StopCPUProfile()
 	}
 	t1 := time.Now()
 	res := s.RunJob(job)
